@@ -453,6 +453,11 @@ def run(F, rep, fm, reach):
                         if supplied and any(tx is None for tx, _ in supplied) and not any(tx == "" for tx, _ in supplied):
                             continue      # undecided
                     bad = sorted(t for t in {nospace(t) for t in texts} if t not in lang_ns)
+                    if bad and (where.startswith("<start>") or where.endswith("<end>")) and "" in lang_ns:
+                        # extra text at the edge of a node's own syntax may be the enclosing production's (the ```ebnf fence around a grammar,
+                        # written by the grammar emitter itself because the section-element dispatcher adds nothing): not decided here
+                        undecided.append("%s: writes `%s` at its edge (%s); the node's own parser takes nothing there" % (it["name"], bad[0][:20], where))
+                        continue
                     if bad and amb:
                         # text that may belong to the neighbouring field's own syntax: accept if some split of it fits
                         alt_texts = {""}
